@@ -195,16 +195,17 @@ def checkFlows (canRemoveDesired : Bool) : Nat → List Nat → Chain → Except
     | .error e => .error e
     | .ok (ch, redo) => checkFlows canRemoveDesired fuel redo ch
 
+/-- first loop of `validateChainMarkIncludeExclude`: everything not excluded is assumed included -/
+def markAll : List Nat → Chain → List Nat → Except IncErr (Chain × List Nat)
+  | [], ch, rem => .ok (ch, rem)
+  | i :: rest, ch, rem =>
+    if !(ch.get i).excluded then markAll rest (ch.upd i fun f => { f with inc := true, cannot := false }) (rem ++ [i])
+    else if (ch.get i).c.required then .error .required
+    else markAll rest (ch.upd i fun f => { f with cannot := true, inc := false }) rem
+
 /-- `validateChainMarkIncludeExclude` -/
 def validate (canRemoveDesired : Bool) (ch : Chain) : Except IncErr Chain :=
-  let rec mark : List Nat → Chain → List Nat → Except IncErr (Chain × List Nat)
-    | [], ch, rem => .ok (ch, rem)
-    | i :: rest, ch, rem =>
-      let fm := ch.get i
-      if !fm.excluded then mark rest (ch.upd i fun f => { f with inc := true, cannot := false }) (rem ++ [i])
-      else if fm.c.required then .error .required
-      else mark rest (ch.upd i fun f => { f with cannot := true, inc := false }) rem
-  match mark (List.range ch.length) ch [] with
+  match markAll (List.range ch.length) ch [] with
   | .error e => .error e
   | .ok (ch, rem) => checkFlows canRemoveDesired (4 * ch.length * ch.length + 8) rem ch
 
@@ -284,6 +285,26 @@ def clusters (ch : Chain) : Chain :=
     let ch := if !fm.c.required && !fm.c.desired && fm.wanted then ch.upd i fun f => { f with wantedInCluster := true } else ch
     (ch, leaders)) (ch, ([] : List (Nat × Nat))) |>.1
 
+/-- one round: try to eliminate every proposed provider -/
+def proposalRound (ch : Chain) : Chain :=
+  (proposeEliminations ch).foldl (fun ch i =>
+    let fm := ch.get i
+    if fm.excluded then ch
+    else if fm.c.cluster != 0 then
+      match fm.clusterMembers with
+      | some ms => tryWithout ch ms
+      | none => ch
+    else tryWithout ch [i]) ch
+
+def countExcluded (ch : Chain) : Nat := (ch.filter (·.excluded)).length
+
+/-- repeat the round until nothing more is eliminated -/
+def proposalLoop : Nat → Chain → Chain
+  | 0, ch => ch
+  | fuel + 1, ch =>
+    let ch' := proposalRound ch
+    if countExcluded ch' == countExcluded ch then ch' else proposalLoop fuel ch'
+
 /-- `computeDependenciesAndInclusion` (after reorder) -/
 def computeInclusion (ti : TyInfo) (funcs : List CP) : Except IncErr Chain :=
   let initPos := (funcs.zip (List.range funcs.length)).findSome? fun (c, i) => if c.cls == .initFunc then some i else none
@@ -296,14 +317,7 @@ def computeInclusion (ti : TyInfo) (funcs : List CP) : Except IncErr Chain :=
     let ch := clusters ch
     let n := ch.length
     let ch := eliminateUnused (n * n + n + 8) (List.range n) ch
-    let ch := (proposeEliminations ch).foldl (fun ch i =>
-      let fm := ch.get i
-      if fm.excluded then ch
-      else if fm.c.cluster != 0 then
-        match fm.clusterMembers with
-        | some ms => tryWithout ch ms
-        | none => ch
-      else tryWithout ch [i]) ch
+    let ch := proposalLoop (n + 1) ch
     let ch := ch.map fun f => { f with cannot := f.excluded }
     let ch := providesReturns ti ch initPos
     match validate true ch with
